@@ -22,7 +22,7 @@ ASSUMPTIONS = ["LAPACK gesdd on the complex adjoint is the reference for the spe
                "magnitudes within 1e+-140"]
 SHARDS = {"quick": 4, "thorough": 12}
 DECIDING = ["fro_definition", "fro_entry_points", "norm1_definition", "norminf_definition", "norm2_definition",
-            "homogeneity", "triangle", "submultiplicative", "equivalence", "unknown_ord_rejected"]
+            "layout_independent", "homogeneity", "triangle", "submultiplicative", "equivalence", "unknown_ord_rejected"]
 
 UNKNOWN_ORDS = ["nuc", 3, -1, 0, "1", "2", "FRO", "f", -np.inf, 1.5, "one"]
 
@@ -146,6 +146,31 @@ def _defs(spec, ctx, R):
                       detail={"class": cls, "shape": [m, n], "got": v, "oracle": O["2"]})
         except Exception as e:
             ctx.check("norm2_definition", False, site=name, detail={"exception": repr(e)})
+    # the same matrix in other memory layouts (Fortran order, strided, transposed view, read-only, the view returned by the
+    # library's own conjugate transpose): every norm is a function of the VALUES, so it must match the definition there too
+    for lay in gen.LAYOUTS[1:] + ["herm_of_herm"]:
+        try:
+            if lay == "herm_of_herm":
+                Al = U.quat_hermitian(U.quat_hermitian(A.copy()))
+            else:
+                Al = gen.layout(A, lay)
+            got = {"fro": float(U.matrix_norm(Al)), "1": float(U.matrix_norm(Al, 1)), "inf": float(U.matrix_norm(Al, np.inf)),
+                   "2": float(U.matrix_norm(Al, 2)), "fro_tensor": float(T.tensor_frobenius_norm(Al)), "1_direct": float(U.induced_matrix_norm_1(Al)),
+                   "inf_direct": float(U.induced_matrix_norm_inf(Al))}
+        except Exception as e:
+            ctx.check("layout_independent", False, site="layout:" + lay, detail={"exception": repr(e), "shape": [m, n]})
+            continue
+        worst, wk = 0.0, None
+        for k2, v in got.items():
+            key = k2.split("_")[0]
+            b = (1e3 * max(m, n) if key == "2" else 16 * (m * n + 8)) * refq.EPS * O[key] + 1e-300
+            if abs(v - O[key]) / b > worst:
+                worst, wk = abs(v - O[key]) / b, k2
+        ctx.check("layout_independent", worst, 1.0, site="layout:" + lay, detail={"worst_norm": wk, "values": got, "oracle": O, "shape": [m, n]})
+    # transpose duality on the library's own conjugate transpose: ||A^H||_1 = ||A||_inf
+    AH = U.quat_hermitian(A.copy())
+    ctx.check("layout_independent", abs(float(U.matrix_norm(AH, 1)) - O["inf"]), 16 * (m * n + 8) * refq.EPS * O["inf"] + 1e-300, site="norm1(A^H)=norminf(A)")
+    ctx.check("layout_independent", abs(float(U.matrix_norm(AH, np.inf)) - O["1"]), 16 * (m * n + 8) * refq.EPS * O["1"] + 1e-300, site="norminf(A^H)=norm1(A)")
     # homogeneity (real scalar, quaternion scalar on the left and on the right)
     if cls not in ("huge", "tiny"):
         N0 = norms(R, A)
